@@ -98,6 +98,8 @@ type Drv struct {
 	viaNewCtr       int
 	triedStructural bool
 	leaked          bool
+	by              *bystander
+	NoBystander     bool
 	curExch         typed.TExch // exchange object of the running op
 	args            []argGuard
 	Guard           bool // argument slices are watched / shared (off for concurrent use of the driver)
@@ -110,6 +112,7 @@ type Stats struct {
 	Ops              [NKinds]int64
 	Paths            [NPaths]int64
 	Panics           int64
+	BystanderOps     int64
 	NestedSameObject int64 // rejected calls made from a callback through the object the running op was called on
 	ExpPanics        int64
 	Sweeps           int64
